@@ -262,6 +262,177 @@ Proof. vm_compute. reflexivity. Qed.
 Lemma wrap_is_layout : layout_toks [wrap_g1; wrap_g2] wrap_tail = wrap_s1.
 Proof. vm_compute. reflexivity. Qed.
 
+(* ---- further layouts (second batch): the chain continuing on the last row of a multi-line argument,
+   read from that row (tailrow) or reached by backing up onto it (cont); a backslash continuation
+   (bslash); a lambda that is not the first argument (nonfirst); a decorated one-line def (decodef)
+     tailrow:  r = ds.Select(lambda e: (e.a,
+                                        e.b)).Select(lambda e: e.c)            stream from row 2
+     cont:     r = ds.Select(lambda e: (e.a,
+                   e.b)).Select(
+                   lambda e: e.c)                                   streams from row 3 and row 2
+     bslash:   r = ds.Select(lambda e: e.a) \
+                   .Select(lambda e: e.b)                                      stream from row 1
+     nonfirst: r = ds.Select(x, lambda e: e.a)
+     decodef:  @ident
+               def g(e): return e.a                                          stream from row 1 ---- *)
+Definition tailrow_s0 : list tok :=
+  [T 2 KOther "                         ";
+   T 2 KName "e";
+   T 2 KOp ".";
+   T 2 KName "b";
+   T 2 KOp ")";
+   T 2 KOp ")";
+   T 2 KOp ".";
+   T 2 KName "Select";
+   T 2 KOp "(";
+   T 2 KName "lambda";
+   T 2 KName "e";
+   T 2 KOp ":";
+   T 2 KName "e";
+   T 2 KOp ".";
+   T 2 KName "c";
+   T 2 KOp ")";
+   T 2 KNewline nl_text;
+   T 3 KOther "";
+   T 3 KOther ""].
+
+(* tailrow_s0: lambda/def tokens at [(9, 'lambda')] *)
+Definition tailrow_g1 : segment :=
+  mkSeg [T 2 KOther "                         "; T 2 KName "e"; T 2 KOp "."; T 2 KName "b"; T 2 KOp ")"; T 2 KOp ")"; T 2 KOp "."] "Select" 2 [T 2 KOp "("]
+        2 [T 2 KName "e"; T 2 KOp ":"; T 2 KName "e"; T 2 KOp "."; T 2 KName "c"] (T 2 KOp ")").
+Definition tailrow_tail : list tok := [T 2 KNewline nl_text; T 3 KOther ""; T 3 KOther ""].
+
+Definition cont_s0 : list tok :=
+  [T 3 KOther "    ";
+   T 3 KName "lambda";
+   T 3 KName "e";
+   T 3 KOp ":";
+   T 3 KName "e";
+   T 3 KOp ".";
+   T 3 KName "c";
+   T 3 KOp ")";
+   T 3 KNewline nl_text;
+   T 4 KOther "";
+   T 4 KOther ""].
+
+(* cont_s0: lambda/def tokens at [(1, 'lambda')] *)
+Definition cont_s1 : list tok :=
+  [T 2 KOther "    ";
+   T 2 KName "e";
+   T 2 KOp ".";
+   T 2 KName "b";
+   T 2 KOp ")";
+   T 2 KOp ")";
+   T 2 KOp ".";
+   T 2 KName "Select";
+   T 2 KOp "(";
+   T 2 KNl nl_text;
+   T 3 KName "lambda";
+   T 3 KName "e";
+   T 3 KOp ":";
+   T 3 KName "e";
+   T 3 KOp ".";
+   T 3 KName "c";
+   T 3 KOp ")";
+   T 3 KNewline nl_text;
+   T 4 KOther "";
+   T 4 KOther ""].
+
+(* cont_s1: lambda/def tokens at [(10, 'lambda')] *)
+Definition cont_g1 : segment :=
+  mkSeg [T 2 KOther "    "; T 2 KName "e"; T 2 KOp "."; T 2 KName "b"; T 2 KOp ")"; T 2 KOp ")"; T 2 KOp "."] "Select" 2 [T 2 KOp "("; T 2 KNl nl_text]
+        3 [T 3 KName "e"; T 3 KOp ":"; T 3 KName "e"; T 3 KOp "."; T 3 KName "c"] (T 3 KOp ")").
+Definition cont_tail : list tok := [T 3 KNewline nl_text; T 4 KOther ""; T 4 KOther ""].
+
+Definition bslash_s0 : list tok :=
+  [T 1 KName "r";
+   T 1 KOp "=";
+   T 1 KName "ds";
+   T 1 KOp ".";
+   T 1 KName "Select";
+   T 1 KOp "(";
+   T 1 KName "lambda";
+   T 1 KName "e";
+   T 1 KOp ":";
+   T 1 KName "e";
+   T 1 KOp ".";
+   T 1 KName "a";
+   T 1 KOp ")";
+   T 2 KOp ".";
+   T 2 KName "Select";
+   T 2 KOp "(";
+   T 2 KName "lambda";
+   T 2 KName "e";
+   T 2 KOp ":";
+   T 2 KName "e";
+   T 2 KOp ".";
+   T 2 KName "b";
+   T 2 KOp ")";
+   T 2 KNewline nl_text;
+   T 3 KOther ""].
+
+(* bslash_s0: lambda/def tokens at [(6, 'lambda'), (16, 'lambda')] *)
+Definition bslash_g1 : segment :=
+  mkSeg [T 1 KName "r"; T 1 KOp "="; T 1 KName "ds"; T 1 KOp "."] "Select" 1 [T 1 KOp "("]
+        1 [T 1 KName "e"; T 1 KOp ":"; T 1 KName "e"; T 1 KOp "."; T 1 KName "a"] (T 1 KOp ")").
+Definition bslash_g2 : segment :=
+  mkSeg [T 2 KOp "."] "Select" 2 [T 2 KOp "("]
+        2 [T 2 KName "e"; T 2 KOp ":"; T 2 KName "e"; T 2 KOp "."; T 2 KName "b"] (T 2 KOp ")").
+Definition bslash_tail : list tok := [T 2 KNewline nl_text; T 3 KOther ""].
+
+Definition nonfirst_s0 : list tok :=
+  [T 1 KName "r";
+   T 1 KOp "=";
+   T 1 KName "ds";
+   T 1 KOp ".";
+   T 1 KName "Select";
+   T 1 KOp "(";
+   T 1 KName "x";
+   T 1 KOp ",";
+   T 1 KName "lambda";
+   T 1 KName "e";
+   T 1 KOp ":";
+   T 1 KName "e";
+   T 1 KOp ".";
+   T 1 KName "a";
+   T 1 KOp ")";
+   T 1 KNewline nl_text;
+   T 2 KOther ""].
+
+(* nonfirst_s0: lambda/def tokens at [(8, 'lambda')] *)
+Definition nonfirst_g1 : segment :=
+  mkSeg [T 1 KName "r"; T 1 KOp "="; T 1 KName "ds"; T 1 KOp "."; T 1 KName "Select"; T 1 KOp "("] "x" 1 [T 1 KOp ","]
+        1 [T 1 KName "e"; T 1 KOp ":"; T 1 KName "e"; T 1 KOp "."; T 1 KName "a"] (T 1 KOp ")").
+Definition nonfirst_tail : list tok := [T 1 KNewline nl_text; T 2 KOther ""].
+
+Definition decodef_s0 : list tok :=
+  [T 1 KOp "@";
+   T 1 KName "ident";
+   T 1 KNewline nl_text;
+   T 2 KName "def";
+   T 2 KName "g";
+   T 2 KOp "(";
+   T 2 KName "e";
+   T 2 KOp ")";
+   T 2 KOp ":";
+   T 2 KName "return";
+   T 2 KName "e";
+   T 2 KOp ".";
+   T 2 KName "a";
+   T 2 KNewline nl_text;
+   T 3 KName "r";
+   T 3 KOp "=";
+   T 3 KName "ds";
+   T 3 KOp ".";
+   T 3 KName "Select";
+   T 3 KOp "(";
+   T 3 KName "g";
+   T 3 KOp ")";
+   T 3 KNewline nl_text;
+   T 4 KOther ""].
+
+(* decodef_s0: lambda/def tokens at [(3, 'def')] *)
+
 (* ---- the refutations of the pinned selection ---- *)
 Lemma pinned_refuted :
   exists P streams L dsrc caller args s k toks k0,
